@@ -200,3 +200,43 @@ def build_cli():
         + ["-Wl," + ",".join("--wrap=" + w for w in CLI_WRAPS)])
     ext = undefined_externals([main_o, dec_o])
     return exe, ext
+
+
+SCHED_WRAPS = ["malloc", "free", "calloc", "realloc", "strdup", "strndup", "strlen", "strchr", "strrchr", "strstr", "strspn", "strcspn",
+               "strncasecmp", "strcasecmp", "strcmp", "strncmp", "memcpy", "memmove", "memset", "memcmp", "memchr", "strcpy", "strncpy",
+               "idn2_to_ascii_8z", "strtok", "strerror", "rand", "srand", "setlocale", "getenv", "abort", "__assert_fail",
+               "pthread_mutex_lock", "pthread_mutex_trylock", "pthread_mutex_unlock", "pthread_mutex_init", "pthread_mutex_destroy",
+               "pthread_rwlock_rdlock", "pthread_rwlock_wrlock", "pthread_rwlock_unlock", "pthread_once"]
+
+# externals of the library objects that the C14 runtime models (anything else is reported as unmodelled)
+SCHED_MODELLED = set(SCHED_WRAPS) | {"__ctype_b_loc", "__ctype_tolower_loc", "__ctype_toupper_loc", "idn2_strerror", "__errno_location"}
+HIDDEN_STATE = {"strtok", "strerror", "rand", "srand", "setlocale", "localtime", "gmtime", "asctime", "ctime", "hsearch", "hcreate", "hdestroy",
+                "getpwnam", "getpwuid", "gethostbyname", "readdir", "ttyname", "tmpnam", "drand48", "lrand48", "random", "srandom", "ecvt", "fcvt", "getenv", "setenv", "putenv"}
+
+
+def build_sched():
+    """C14: library compiled with -fsanitize=thread (compiler inserts __tsan_* calls), linked against
+    sim/sched/rt.cpp instead of libtsan.  The library objects' writable sections are renamed so that
+    the linker brackets them with __start_/__stop_ symbols (pristine snapshot / reset per run)."""
+    d = os.path.join(BUILD, "sched")
+    if os.path.isdir(d):
+        shutil.rmtree(d)
+    tsan = ["-O1", "-g", "-gdwarf-4", "-fsanitize=thread", "-fno-builtin", "-fno-omit-frame-pointer"]
+    objs = compile_lib(d, "idn2", tsan, [])
+    ext = undefined_externals(objs)
+    for o in objs:
+        run(["objcopy", "--rename-section", ".data=eavdata", "--rename-section", ".bss=eavbss",
+             "--rename-section", ".data.rel=eavdata", "--rename-section", ".data.rel.local=eavdata", o])
+    sim = os.path.join(VERIF, "sim")
+    inc = ["-I" + os.path.join(REPO, "include"), "-I" + REPO, "-DHAVE_LIBIDN2"]
+    plain = ["-O1", "-g", "-gdwarf-4", "-fno-omit-frame-pointer", "-fPIC"]
+    rt_o = os.path.join(d, "rt.o"); sm_o = os.path.join(d, "sched_sim.o")
+    jobs = [[CXX, "-std=c++17", "-Wall"] + plain + ["-c", os.path.join(sim, "sched/rt.cpp"), "-o", rt_o],
+            [CXX, "-std=c++17", "-Wall"] + plain + inc + ["-c", os.path.join(sim, "sched/sched_sim.cpp"), "-o", sm_o]]
+    compile_many(jobs, {0})
+    exe = os.path.join(d, "sched")
+    run([CXX, "-rdynamic", "-o", exe, sm_o, rt_o] + objs + ["-lidn2", "-lpthread", "-ldl"]
+        + ["-Wl," + ",".join("--wrap=" + w for w in SCHED_WRAPS)])
+    unmodelled = [s for s in ext if s not in SCHED_MODELLED]
+    hidden = [s for s in ext if s in HIDDEN_STATE]
+    return exe, {"library_externals": ext, "unmodelled_externals": unmodelled, "hidden_state_externals": hidden}
